@@ -65,7 +65,7 @@ def nf_value(curve, e):
 
 def run(ctx):
     ctx.rule = ("every (directory, file, variant) under srlife/data: load through the documented loader, evaluate on sweeps "
-                "(temperatures at and between table points and outside-but-covered ranges, stresses 1-1000 MPa, strain ranges "
+                "(temperatures at and between table points and outside-but-covered ranges, stresses 0.05-1000 MPa, strain ranges "
                 "1e-4..5e-2 incl. values just below/above each cut-off, temperatures just below/above each fatigue curve), XML "
                 "round trip; random custom piecewise / ceramic models with differing grids. one case = one variant or custom "
                 "model; non-trivial = every damage / tabulated variant")
@@ -109,7 +109,7 @@ def run(ctx):
                 curves = read_fatigue(name, var)
                 Tcs = sorted(cv["T"] for cv in curves)
                 c["T"] = [hx(t) for t in np.linspace(700, 1200, 11)]
-                c["stress"] = [hx(s) for s in np.exp(np.linspace(math.log(1.0), math.log(1000.0), 40))]
+                c["stress"] = [hx(s) for s in np.exp(np.linspace(math.log(0.05), math.log(1000.0), 48))]
                 Tf = []
                 for T in Tcs:
                     Tf += [T, T - 1.0, T - 30.0]
@@ -226,6 +226,13 @@ def run(ctx):
                     if T not in ts and abs(uv(dgot) - slope) > 1e-9 * (abs(slope) + 1e-15):
                         findings.append((c, "%s: derivative of the film coefficient for %s at %g K is %r, the table's slope is %r"
                                          % (label, what, T, uv(dgot), slope)))
+        elif c["sub"] == "thermalfluid" and "polys" in ev:
+            # the variant that was asked for is the variant that was loaded: its polynomials are the file's
+            node = ET.parse(os.path.join(DATA, "thermalfluid", c["name"] + ".xml")).getroot().find(c["variant"])
+            for key, got in ev["polys"].items():
+                want = [float(x) for x in node.find(key).text.split()]
+                if [uv(x) for x in got] != want:
+                    findings.append((c, "%s: loaded %s is %s, the data file says %s" % (label, key, [uv(x) for x in got], want)))
         elif c["sub"] == "damage" and ev.get("kind") == "metallic":
             if any(v != "inf" for pair in ev.get("tR0", []) for v in pair):
                 findings.append((c, "%s: rupture time at zero stress is %s, an unloaded point never ruptures (inf)"
